@@ -258,7 +258,8 @@ def run(prop, tier, seed):
         res = dict(res, ncases=res['ncases'] + res2['ncases'])
     class_stats = None
     class_ids = set()
-    if prop == 'C01':
+    if prop in ('C01', 'C07'):
+        # (C07 runs this corpus for its data flow: declared outputs, options and inputs under a name with `__` inside, which is not private)
         # the class for which progress is proved for every run (model/Class.v, proofs/Progress.v): sequential workflows of
         # interactive acts, complete / submit / remove on any task, four actions in ten while the scheduler is held.  The
         # generator checks membership with the extracted frag_nodes; here the implementation must follow the model line by
